@@ -26,7 +26,10 @@ EXPLANATION = (
     "enter a reduction over samples. This covers all 6 classes x 2 modes including the Wasserstein loops (emd2 as an opaque "
     "function with its dual potentials) and the MMD zero-distance masks; all n and K at once (sizes are symbols).")
 from ..e8_gemini import ASSUMPTIONS as E8_ASSUMPTIONS
-ADOPT = [("C13", ["C13-d"], "a score (and its gradient) is a function of the predictions and the affinity alone: a value cached on the objective and reused on the evidence of identity or shape makes it depend on earlier calls")]
+ADOPT = [("C13", ["C13-d"], "a score (and its gradient) is a function of the predictions and the affinity alone: a value cached on the objective and reused on the evidence of identity or shape makes it depend on earlier calls"),
+         ("C13", ["C13-b"], "clipped entries receive zero gradient, so the gradient is the derivative of the score only if the score is a function of the CLIPPED predictions: a raw "
+                            "prediction that reaches the formulas (other than through np.clip, the mask comparisons or .shape) gives the score a slope at clipped entries that the masked "
+                            "gradient does not have; likewise a gradient through an unfloored square root or an unmasked zero distance is inf/NaN, not a derivative")]
 ASSUMPTIONS = ["numpy broadcasting/reduction shape semantics as encoded in gcverif/e3_numpy.py",
                "ot.emd2(a, b, M, log=True) returns (cost, {'u': dual of a, 'v': dual of b})"] + E8_ASSUMPTIONS
 
